@@ -10,6 +10,7 @@ import (
 	"errors"
 	"fmt"
 	"os"
+	"path"
 	"path/filepath"
 	"runtime/debug"
 	"sort"
@@ -51,6 +52,11 @@ type Source struct {
 	// (an oracle that does not depend on any earlier compilation in this process).
 	ExpectHas    []string `json:"expect_has,omitempty"`
 	ExpectHasNot []string `json:"expect_has_not,omitempty"`
+	// Packed: the files are served as slices of one buffer shared by every compilation of
+	// this source (see packedReader) instead of a private copy per read.
+	Packed   bool `json:"packed_reader,omitempty"`
+	packOnce sync.Once
+	packed   *packedReader
 }
 
 type noRetriever struct{}
@@ -59,7 +65,80 @@ func (noRetriever) Retrieve(context.Context, *retriever.Resource) ([]byte, error
 	return nil, errors.New("remote imports are not available in the simulation")
 }
 
+// packedReader serves the files of one source out of one buffer, the way a bundle, an
+// unpacked archive or a memory map does: a read returns buf[off:off+n], a slice whose
+// capacity reaches to the end of the buffer and which every reader of that file gets.
+// What it hands out belongs to the reader: a compilation may read it, never write it (or
+// append to it).  Everything else (directory operations, opens by the importers, remote
+// names) goes to the ordinary simulated disk.
+type packedReader struct {
+	reader.Reader
+	buf []byte
+	idx map[string][2]int
+	sum uint64
+}
+
+func newPackedReader(inner reader.Reader, files map[string]string) *packedReader {
+	pr := &packedReader{Reader: inner, idx: map[string][2]int{}}
+	for _, p := range core.SortedKeys(files) {
+		pr.idx[path.Clean("/"+p)] = [2]int{len(pr.buf), len(pr.buf) + len(files[p])}
+		pr.buf = append(pr.buf, files[p]...)
+	}
+	pr.buf = append(pr.buf, strings.Repeat("#", 64)...) // the last file has something behind it too
+	pr.sum = core.HashStrings(string(pr.buf))
+	return pr
+}
+
+func (pr *packedReader) lookup(name string) ([]byte, bool) {
+	if strings.HasPrefix(name, "//") {
+		return nil, false
+	}
+	if i := strings.Index(name, "@"); i >= 0 {
+		name = name[:i]
+	}
+	se, ok := pr.idx[path.Clean("/"+name)]
+	if !ok {
+		return nil, false
+	}
+	return pr.buf[se[0]:se[1]], true
+}
+
+func (pr *packedReader) Read(ctx context.Context, name string) ([]byte, error) {
+	if b, ok := pr.lookup(name); ok {
+		return b, nil
+	}
+	return pr.Reader.Read(ctx, name)
+}
+
+func (pr *packedReader) ReadHash(ctx context.Context, name string) ([]byte, retriever.Hash, error) {
+	if b, ok := pr.lookup(name); ok {
+		return b, retriever.ZeroHash, nil
+	}
+	return pr.Reader.ReadHash(ctx, name)
+}
+
+func (pr *packedReader) ReadHashBranch(ctx context.Context, name string) ([]byte, retriever.Hash, string, error) {
+	if b, ok := pr.lookup(name); ok {
+		return b, retriever.ZeroHash, "", nil
+	}
+	return pr.Reader.ReadHashBranch(ctx, name)
+}
+
+// intact reports whether the buffer still holds what was stored.
+func (pr *packedReader) intact() bool { return core.HashStrings(string(pr.buf)) == pr.sum }
+
 func (s *Source) reader() reader.Reader {
+	if s.Files != nil && s.Packed {
+		s.packOnce.Do(func() {
+			fs := simfs.New()
+			fs.Record = false
+			for p, c := range s.Files {
+				fs.PutFile(p, []byte(c))
+			}
+			s.packed = newPackedReader(remotefs.NewWithRetriever(filesystem.New(fs), noRetriever{}), s.Files)
+		})
+		return s.packed
+	}
 	if s.Files != nil {
 		fs := simfs.New()
 		fs.Record = false
@@ -235,6 +314,30 @@ func foreignTwins() []*Source {
 	return []*Source{mk("team.one", "team.two"), mk("team.two", "team.one")}
 }
 
+// swaggerCrowd: models that import Swagger documents whose definitions refer to each
+// other (three mutually: converts; four mutually: the converter gives up, every time),
+// next to the twins.
+func swaggerCrowd() []*Source {
+	graph := func(n int) string {
+		var sb strings.Builder
+		sb.WriteString("swagger: \"2.0\"\ninfo:\n  title: Graph\n  version: \"1\"\npaths:\n  /s0:\n    get:\n      responses:\n        200:\n          description: ok\n          schema:\n            $ref: '#/definitions/S0'\ndefinitions:\n")
+		for i := 0; i < n; i++ {
+			fmt.Fprintf(&sb, "  S%d:\n    type: object\n    properties:\n      id:\n        type: string\n", i)
+			for j := 0; j < n; j++ {
+				if i != j {
+					fmt.Fprintf(&sb, "      p%d:\n        $ref: '#/definitions/S%d'\n", j, j)
+				}
+			}
+		}
+		return sb.String()
+	}
+	mk := func(n int) *Source {
+		return &Source{Name: "main.sysl", Files: map[string]string{"main.sysl": "import g.yaml as G ~swagger\n\nApp:\n    ...\n", "g.yaml": graph(n)}}
+	}
+	k3, k4 := mk(3), mk(4)
+	return append(foreignTwins(), k3, k4, k3, k4, mk(2), mk(4))
+}
+
 // ---- sources ------------------------------------------------------------------------
 
 func repoDir() string { return core.EnvStr("VERIF_REPO", "/repo") }
@@ -267,10 +370,14 @@ func generated(seed uint64, broken bool) *Source {
 			f.Text += "Tail [~x, y=\"z\"\n"
 		}
 	}
-	src := &Source{Name: w.Files[0].Path, Files: map[string]string{}, Depth: w.MaxDepth, NoVerCheck: w.NoVerCheck}
+	src := &Source{Name: w.Files[0].Path, Files: map[string]string{}, Depth: w.MaxDepth, NoVerCheck: w.NoVerCheck, Packed: seed%3 != 0}
 	for _, f := range w.Files {
 		if !f.Remote && (f.Kind == "sysl" || f.Kind == "pbjson" || f.Kind == "textpb") {
-			src.Files[f.Path] = f.Text
+			text := f.Text
+			if src.Packed && !broken && f.Kind == "sysl" && (seed+uint64(f.ID))%2 == 0 {
+				text = strings.TrimSuffix(text, "\n") // a last line without a line break is legal
+			}
+			src.Files[f.Path] = text
 		}
 	}
 	e := importsim.Model(w)
@@ -376,6 +483,17 @@ func check(pl *Plan, o *runOut, seq map[*Source]string, cnt core.Counters) []V {
 		}
 		vs = append(vs, V{"result-differs-from-sequential", fmt.Sprintf("task %d (%s): concurrent result differs from the result of compiling it alone: %s",
 			i, src.Name, firstDiff(want, got))})
+	}
+	seenPacked := map[*Source]bool{}
+	for _, src := range pl.Sources {
+		if src.packed != nil && !seenPacked[src] {
+			seenPacked[src] = true
+			cnt.Inc("packed_reader_buffers_verified")
+			if !src.packed.intact() {
+				vs = append(vs, V{"reader-buffer-modified", fmt.Sprintf("source %s: the buffer its reader serves files from (slices of one array, shared by all compilations) "+
+					"was written to by a compilation; later and concurrent compilations read different sources", src.Name)})
+			}
+		}
 	}
 	if o.LexerLeft != 0 {
 		vs = append(vs, V{"lexer-state-leak", fmt.Sprintf("%d lexer state(s) left in the process-global map after all compilations returned", o.LexerLeft)})
@@ -487,6 +605,7 @@ func worker(t *testing.T, c core.Cfg) {
 		}
 	}()
 	twinsDone := race || c.Worker != 0
+	swaggerDone := !(race && c.Worker == 1%nw)
 	crowdDone := !(c.Worker == 1 && !race) && !(race && c.Worker == 0 && c.Tier == "thorough")
 	for g := c.Worker; time.Now().Before(deadline) && len(part.Violations) < 6; g += nw {
 		seed := core.Derive(c.Seed, "C07", c.Mode, "plan", fmt.Sprint(g))
@@ -530,6 +649,27 @@ func worker(t *testing.T, c core.Cfg) {
 				cp.Policy, cp.Picks = "trace", o.Picks
 				_ = core.WriteJSON(p, ReplayFile{Property: "C07", Engine: "compilesim", Mode: c.Mode, Class: v.Class, Detail: v.Detail, Plan: cp})
 				part.Violations = append(part.Violations, core.ViolationRec{Class: v.Class, Detail: v.Detail + " [crowd plan]", Replay: p, Seed: seed})
+				break
+			}
+		}
+		if !swaggerDone {
+			// once per run, under the race detector: several compilations that each convert a
+			// Swagger document, all released at once.  The converters (kin-openapi, arr.ai)
+			// keep process-wide settings; nothing a compilation does may write them.
+			swaggerDone = true
+			sp := &Plan{Seed: seed, Sources: swaggerCrowd(), Policy: "waves", Quantum: 3}
+			o := runPlan(t, sp, makePicker(sp, r.Fork()))
+			for _, s := range sp.Sources {
+				seqOf(s)
+			}
+			part.Evaluations++
+			part.Cases++
+			part.Counters.Inc("swagger_crowd_plans")
+			for _, v := range check(sp, o, seq, part.Counters) {
+				p := filepath.Join(core.ReplayDir(), fmt.Sprintf("C07-%s-swagger-%s-%d.json", c.Mode, core.SafeName(v.Class), seed))
+				sp.Policy, sp.Picks = "trace", o.Picks
+				_ = core.WriteJSON(p, ReplayFile{Property: "C07", Engine: "compilesim", Mode: c.Mode, Class: v.Class, Detail: v.Detail, Plan: sp})
+				part.Violations = append(part.Violations, core.ViolationRec{Class: v.Class, Detail: v.Detail + " [swagger crowd]", Replay: p, Seed: seed})
 				break
 			}
 		}
